@@ -17,7 +17,7 @@ META = {
     ),
     "anchors": ["fermionic_core.FermionicArray.conj", "fermionic_core.FermionicArray.dagger", "fermionic_core.oddpos_dag", "fermionic_core.resolve_combined_oddpos", "abelian_core.BlockIndex.conj"],
     "floors": {
-        "quick": {"evaluations": 8000, "distinct_nontrivial": 1200, "tables": {"law/norm-conj": 1500, "law/norm-dagger": 1500, "law/involution": 1500, "law/dagger=conjT": 800, "law/graded-adjoint": 800, "law/network-norm": 600, "feature/odd": 1500, "feature/bra-like-dangling": 100}},
+        "quick": {"evaluations": 8000, "distinct_nontrivial": 1200, "tables": {"law/norm-conj": 1500, "law/norm-dagger": 1500, "law/involution": 1500, "law/dagger=conjT": 800, "law/graded-adjoint": 800, "law/network-norm": 600, "feature/odd": 1500, "feature/bra-like-dangling": 100, "feature/multi-label-array": 300}},
         "thorough": {"evaluations": 250000, "distinct_nontrivial": 30000, "tables": {"law/network-norm": 30000}},
     },
     "wall": {"quick": 100, "thorough": 1700},
@@ -56,10 +56,33 @@ def case_array(ctx, rng):
     nd = rng.randint(1, 4)
     idx = [gen.rand_index(sr, rng, sym, maxd=2, dual={"all-ket": False, "all-bra": True}.get(pattern)) for _ in range(nd)]
     lab = gen.label_for(rng, rng.choice(["int", "tuple", "str"]))
-    x = gen.make_array(sr, rng, sym, idx, fermionic=True, values=vals, label=lab, maxd=2) if False else gen.make_array(sr, rng, sym, idx, fermionic=True, values=vals, label=lab)
-    if rng.random() < 0.3 and x.ndim >= 2:
-        # a tensor with two labels: contract two odd tensors
-        pass
+    x = gen.make_array(sr, rng, sym, idx, fermionic=True, values=vals, label=lab)
+    if rng.random() < 0.3:
+        # an array carrying two or three labels: open-legged product of odd tensors
+        parts = []
+        labs = rng.sample(range(1, 50), 3)
+        _, _, kind = gen.pick_class(sr, rng, sym, True)
+        for k in range(rng.choice([2, 2, 3])):
+            pidx = [gen.rand_index(sr, rng, sym, maxd=2, dual={"all-ket": False, "all-bra": True}.get(pattern)) for _ in range(rng.randint(1, 2))]
+            odd_secs = [sec for sec in __import__("itertools").product(*[list(ix.chargemap) for ix in pidx]) if R.par(sym, R.sector_charge(sym, sec, [ix.dual for ix in pidx]))]
+            if not odd_secs:
+                parts = []
+                break
+            ch = R.sector_charge(sym, rng.choice(odd_secs), [ix.dual for ix in pidx])
+            parts.append(gen.make_array(sr, rng, sym, pidx, charge=ch, fermionic=True, kind=kind, values=vals, label=labs[k], sparsity=0.0))
+        if len(parts) >= 2:
+            cur = parts[0]
+            okp = True
+            for p_ in parts[1:]:
+                o_ = ctx.call(sr.tensordot, cur, p_, axes=0, preserve_array=True)
+                if not o_.ok:
+                    okp = False
+                    break
+                cur = o_.value
+            if okp and cur.ndim <= 5 and len(labels_of(cur)) >= 2:
+                x = cur
+                nd = x.ndim
+                ctx.count("feature", "multi-label-array")
     n2 = norm2(x)
     odd = R.par(sym, x.charge)
     allket = all(not ix.dual for ix in x.indices)
